@@ -156,6 +156,7 @@ class ComplementaryTableInfo:
         # self.template # TODO Table template data should/could be included here
         # self.parametrization = None: Do not include, see discussion in module docs
         self._last_dataframe_state = None
+        self._last_dataframe_empty = None
 
     def __str__(self):
         return str(self.metadata)
@@ -198,10 +199,15 @@ class ComplementaryTableInfo:
         Check that column register matches columns of dataframe
         """
         dataframe_state = df.dtypes
-        if dataframe_state.equals(self._last_dataframe_state):
+        is_empty = df.empty
+        if (
+            dataframe_state.equals(self._last_dataframe_state)
+            and is_empty == self._last_dataframe_empty
+        ):
             return
         self._update_columns(df)
         self._last_dataframe_state = dataframe_state
+        self._last_dataframe_empty = is_empty
 
     @property
     def units(self) -> List[str]:
